@@ -2,9 +2,15 @@ package main
 
 import (
 	"fmt"
+	"io/ioutil"
 	"math/big"
+	"os"
 	"sync"
+	"sync/atomic"
 	"time"
+
+	"github.com/vipnode/vipnode/v2/pool/balance"
+	badgerstore "github.com/vipnode/vipnode/v2/pool/store/badger"
 
 	"github.com/vipnode/vipnode/v2/pool/store"
 )
@@ -288,4 +294,147 @@ func firstCreditRace(ctx *Ctx, i int, drv int, prefix string) {
 		mon = append(mon, fmt.Sprintf("%s-first-credit-applied-twice: %d of %d nodes that were credited 1000 once, while checking in, hold another amount (e.g. %s): the credit was applied more than once (%s driver)", prefix, wrong, hosts, example, driverNames[drv]))
 	}
 	ctx.Emit(Case{I: i, Kind: "first-credit-race-" + driverNames[drv], Desc: map[string]interface{}{"nodes": hosts, "wrong": wrong}, Monitor: mon})
+}
+
+// hotWallet: many light clients spend from ONE wallet, each peered with a host of its own, and all
+// of them check in at the same moment, round after round, on the persistent driver (whose
+// optimistic transactions conflict on the wallet's record). Every keep-alive returns -- with a
+// result or with an error -- and after each of them the ledger is zero-sum: what the hosts were
+// credited, the wallet was debited. Acknowledged credits are also there after a restart.
+func hotWallet(ctx *Ctx, i int, prefix string) {
+	st := newStore(drvBdg)
+	defer st.Destroy()
+	var mon []string
+	const clients, rounds = 48, 60
+	mgr := balance.PayPerInterval(st.Store, time.Second, big.NewInt(1000))
+	var tick int64
+	base := time.Now()
+	mgr.VerifSetClock(func() time.Time { return base.Add(time.Duration(atomic.LoadInt64(&tick)) * time.Second) })
+	wallet := store.Account(walletOf("w1"))
+	type pair struct{ c, h store.Node }
+	var pairs []pair
+	for k := 0; k < clients; k++ {
+		c := store.Node{ID: store.NodeID(fmt.Sprintf("%0128x", 0xc10000+k)), Kind: "geth", LastSeen: base}
+		h := store.Node{ID: store.NodeID(fmt.Sprintf("%0128x", 0xa10000+k)), Kind: "geth", IsHost: true, LastSeen: base}
+		for _, n := range []store.Node{c, h} {
+			if err := st.SetNode(n); err != nil {
+				fatal("%v", err)
+			}
+		}
+		if err := st.AddAccountNode(wallet, c.ID); err != nil {
+			fatal("%v", err)
+		}
+		pairs = append(pairs, pair{c, h})
+	}
+	total := func() *big.Int {
+		s, err := st.Stats()
+		if err != nil {
+			fatal("%v", err)
+		}
+		return new(big.Int).Set(&s.TotalCredit)
+	}
+	start := total()
+	var failed int64
+	var firstErr atomic.Value
+	// three bursts; within a burst every client sends its keep-alives one after the other without
+	// waiting for anybody (so that one of them can lose the race for the wallet's record many
+	// times in a row); the ledger is read when the burst is over
+	for burst := 0; burst < 3 && len(mon) == 0; burst++ {
+		var wg sync.WaitGroup
+		gate := make(chan struct{})
+		for k := range pairs {
+			wg.Add(1)
+			go func(p pair) {
+				defer wg.Done()
+				<-gate
+				for r := 0; r < rounds/3; r++ {
+					c := p.c
+					c.LastSeen = base.Add(time.Duration(atomic.AddInt64(&tick, 1)-2) * time.Second)
+					if _, err := mgr.OnUpdate(c, []store.Node{p.h}); err != nil {
+						atomic.AddInt64(&failed, 1)
+						firstErr.CompareAndSwap(nil, err.Error())
+					}
+				}
+			}(pairs[k])
+		}
+		close(gate)
+		wg.Wait()
+		if t := total(); t.Cmp(start) != 0 {
+			fe, _ := firstErr.Load().(string)
+			mon = append(mon, fmt.Sprintf("%s-hot-wallet-total: %d light clients of one wallet sent %d keep-alives each as fast as they could (burst %d, persistent driver); every keep-alive has returned (%d so far with an error, e.g. %q) and the ledger total is %s, not %s: hosts were credited what the wallet was not debited", prefix, clients, rounds/3, burst+1, atomic.LoadInt64(&failed), fe, t, start))
+		}
+	}
+	// what was acknowledged is there after a restart
+	want := new(big.Int)
+	for _, p := range pairs {
+		b, err := st.GetNodeBalance(p.h.ID)
+		if err != nil {
+			fatal("%v", err)
+		}
+		want.Add(want, &b.Credit)
+	}
+	st.Reopen()
+	got := new(big.Int)
+	for _, p := range pairs {
+		b, _ := st.GetNodeBalance(p.h.ID)
+		got.Add(got, &b.Credit)
+	}
+	if got.Cmp(want) != 0 {
+		mon = append(mon, fmt.Sprintf("%s-hot-wallet-restart: the hosts' credit was %s before the restart and is %s after it", prefix, want, got))
+	}
+	ctx.Emit(Case{I: i, Kind: "hot-wallet", Desc: map[string]interface{}{"clients": clients, "rounds": rounds, "keepalives_failed": atomic.LoadInt64(&failed)}, Monitor: mon})
+}
+
+// contendedWrites: many writers credit ONE node at the same moment on the persistent driver, on
+// disk with synchronous writes. Each AddNodeBalance returns: nil (acknowledged) or an error
+// (refused). The balance afterwards, and after a restart, is exactly the sum of the acknowledged
+// credits: an acknowledged write that was not stored is a lost write.
+func contendedWrites(ctx *Ctx, i int, prefix string) {
+	dir, _ := ioutil.TempDir("", "vharness-contended")
+	defer os.RemoveAll(dir)
+	open := func() store.Store {
+		s, err := retryOpen(badgerstore.Open, badgerOptsSync(dir))
+		if err != nil {
+			fatal("open: %v", err)
+		}
+		return s
+	}
+	s := open()
+	id := store.NodeID(fmt.Sprintf("%0128x", 0xdd0001))
+	if err := s.SetNode(store.Node{ID: id, IsHost: true, Kind: "geth", LastSeen: time.Now()}); err != nil {
+		fatal("%v", err)
+	}
+	const writers, each = 160, 5
+	var acked, refused int64
+	var wg sync.WaitGroup
+	gate := make(chan struct{})
+	for g := 0; g < writers; g++ {
+		wg.Add(1)
+		go func() {
+			defer wg.Done()
+			<-gate
+			for k := 0; k < each; k++ {
+				if err := s.AddNodeBalance(id, big.NewInt(1)); err == nil {
+					atomic.AddInt64(&acked, 1)
+				} else {
+					atomic.AddInt64(&refused, 1)
+				}
+			}
+		}()
+	}
+	close(gate)
+	wg.Wait()
+	var mon []string
+	b, err := s.GetNodeBalance(id)
+	if err != nil || b.Credit.Cmp(big.NewInt(acked)) != 0 {
+		mon = append(mon, fmt.Sprintf("%s-acknowledged-write-lost: %d writers credited one node %d times each at the same moment (persistent driver, on disk); %d credits of 1 were acknowledged, %d refused; the balance reads %v (error %v)", prefix, writers, each, acked, refused, b.Credit.String(), err))
+	}
+	s.Close()
+	s = open()
+	b2, err2 := s.GetNodeBalance(id)
+	if len(mon) == 0 && (err2 != nil || b2.Credit.Cmp(big.NewInt(acked)) != 0) {
+		mon = append(mon, fmt.Sprintf("%s-acknowledged-write-lost: %d credits of 1 were acknowledged under contention; after a restart the balance reads %v (error %v)", prefix, acked, b2.Credit.String(), err2))
+	}
+	s.Close()
+	ctx.Emit(Case{I: i, Kind: "contended-writes", Desc: map[string]interface{}{"writers": writers, "credits_each": each, "acknowledged": acked, "refused": refused}, Monitor: mon})
 }
